@@ -150,6 +150,29 @@ class NegGen(harness.Gen):
         for g, sub in gsubs:
             self.w("    %s_cur(v.%s().front(), c);" % (sub, g.name))
         self.w("}")
+        # ---- cursor setters (const view, MUTABLE cursor into the same buffer): what a setter may write is decided by the
+        #      view's byte type too - the dont_move / init wrappers store through the cursor's own pointer
+        self.w("template<typename View, typename Cur> void %s_mcur(View v, Cur& c)" % name)
+        self.w("{")
+        self.w("    (void)v; (void)c;")
+        stored = [f for f in lvl.fields if self.field_kind(f) in ("scalar", "enum", "set")]
+        nonconst = [f for f in lvl.fields if getattr(f, "presence", "") != "constant"]
+        # the generator has separate templates for the last non-constant field of a block and for the others: one witness
+        # set for each (compiled one statement per TU: a rejection may be a hard error deep inside the accessor)
+        picks = []
+        if stored:
+            if nonconst and nonconst[-1] in stored:
+                picks.append(nonconst[-1])
+            first_other = [f for f in stored if not picks or f is not picks[0]]
+            if first_other:
+                picks.append(first_other[0])
+        for f in picks:
+            what = "::".join(path + [f.name])
+            for kn, ce in harness.CURSOR_KINDS[:4]:
+                self.stmt("v.%s(decltype(v.%s()){}, %s);" % (f.name, f.name, ce), what + " cursor setter, mutable cursor on const view (%s)" % kn, iso=True)
+        for g, sub in gsubs:
+            self.w("    %s_mcur(v.%s().front(), c);" % (sub, g.name))
+        self.w("}")
         return name
 
     def generate_neg(self):
@@ -182,7 +205,7 @@ class NegGen(harness.Gen):
             self.w("    { %s<const char> w{cp, n}; narr(w); }" % pub)
         for m, fn in msgs:
             pub = "%s::messages::%s" % (self.ns, m.name)
-            self.w("    { %s<const char> w{cp, n}; %s_all(w, cc); %s<char> v{p, n}; %s_cur(v, cc); }" % (pub, fn, pub, fn))
+            self.w("    { %s<const char> w{cp, n}; %s_all(w, cc); %s<char> v{p, n}; %s_cur(v, cc); ::sbepp::cursor<char> mc; %s_mcur(w, mc); }" % (pub, fn, pub, fn, fn))
         # conversions towards less-const must not exist
         for pub, fn in comps[:3]:
             self.stmt("{ %s<const char> w{cp, n}; %s<char> bad{w}; (void)bad; }" % (pub, pub), "conversion const -> mutable view " + pub)
